@@ -118,6 +118,37 @@ def case(spec):
                                       {'run': r_.brief(), 'surface': s.describe()}, files, r_.argv)
                 res.sigs.append('%s|%d|%s|%s' % (s.variant, len(ents), tuple(c for _, c in rm.gaps(s, v))[:6],
                                                  v.cat.total))
+            # ------------------------------------------------ space with several volumes in one invocation
+            allv = [('%d%s' % (d2, v2.label or ''), s2, v2) for s2, d2 in zip(img.surfaces, img.drives) for v2 in s2.volumes]
+            if len(allv) >= 2 and drive == img.drives[0]:
+                k = rng.randint(2, min(4, len(allv)))
+                chosen = rng.sample(allv, k)
+                # put an empty / catalogue-only volume last when there is one (state carried between volumes)
+                chosen.sort(key=lambda t: 1 if not any(e.length for e in t[2].cat.all_entries()) else 0)
+                r_ = dfs(dfsbin, img.path, ['space'] + [c[0] for c in chosen])
+                res.execs += 1
+                if not screen(res, r_, PROP, 'space-multi', files):
+                    res.events += 1
+                    res.add('space_multi_volume_runs', 1)
+                    got = rm.parse_space_multi(r_.out) if r_.rc == 0 else None
+                    bad = None
+                    if got is None or len(got[0]) != len(chosen):
+                        bad = 'failed, unparseable or wrong number of volume blocks'
+                    else:
+                        tot_all = 0
+                        for (sel, gl, tot), (dv2, s2, v2) in zip(got[0], chosen):
+                            exp = rm.gaps(s2, v2)
+                            tot_all += sum(c for _, c in exp)
+                            if sel != dv2 or sorted(gl) != sorted(c for _, c in exp) or tot != sum(c for _, c in exp):
+                                bad = 'volume %s: gaps %r total %X, expected %r total %X' % (
+                                    sel, sorted(gl), tot, sorted(c for _, c in exp), sum(c for _, c in exp))
+                                break
+                        if not bad and got[1].get('*') is not None and got[1]['*'] != tot_all and \
+                                len(set(c[0] for c in chosen)) == len(chosen):
+                            bad = 'grand total %X, expected %X' % (got[1]['*'], tot_all)
+                    if bad:
+                        res.violation('space-multi-mismatch', 'space with several volumes: ' + bad,
+                                      {'run': r_.brief(), 'volumes': [c[0] for c in chosen]}, files, r_.argv)
             # ------------------------------------------------ sector-map per surface
             use_arg = rng.random() < 0.5
             args, pre = (['sector-map', str(drive)], []) if use_arg else (['sector-map'], ['--drive', str(drive)])
